@@ -298,9 +298,12 @@ func enhancedStatusCode(err error, supported bool) string {
 	if firstrune != 50 && firstrune != 52 && firstrune != 53 {
 		return ""
 	}
-	re, rerr := regexp.Compile(`\b([245])\.\d{1,3}\.\d{1,3}\b`)
+	re, rerr := regexp.Compile(`^\d{3}[ -]([245]\.\d{1,3}\.\d{1,3})\b`)
 	if rerr != nil {
 		return ""
 	}
-	return re.FindString(err.Error())
+	if match := re.FindStringSubmatch(err.Error()); match != nil {
+		return match[1]
+	}
+	return ""
 }
